@@ -39,6 +39,15 @@ func (c *Ctx) accessPath(v ssa.Value) (ssa.Value, []pathStep) {
 				return v, reverseSteps(rev)
 			}
 			v = x.X
+		case *ssa.Parameter:
+			// the parameter of a transparent helper with a single call site denotes the argument passed there
+			if fn := x.Parent(); fn != nil && fn.Parent() == nil && c.transparent(fn) {
+				if args := c.P.ArgsFor(x); len(args) == 1 {
+					v = args[0]
+					continue
+				}
+			}
+			return v, reverseSteps(rev)
 		case *ssa.FieldAddr:
 			rev = append(rev, pathStep{Kind: "field", Field: c.fieldName(x.X.Type(), x.Field)})
 			v = x.X
@@ -109,6 +118,13 @@ func (c *Ctx) mentionsField(v ssa.Value, field string, depth int) bool {
 		return false
 	}
 	switch x := v.(type) {
+	case *ssa.Parameter:
+		for _, src := range c.paramSources(x) {
+			if c.mentionsField(src, field, depth-1) {
+				return true
+			}
+		}
+		return false
 	case *ssa.UnOp:
 		if fa, ok := x.X.(*ssa.FieldAddr); ok && x.Op == token.MUL {
 			if c.fieldName(fa.X.Type(), fa.Field) == field {
